@@ -469,8 +469,11 @@ def main_check(mod, argv):
         'wall_s': round(time.time() - t0, 2),
         'violations': nviol,
     }
-    os.makedirs(os.path.join(VERIF, 'evidence'), exist_ok=True)
-    with open(os.path.join(VERIF, 'evidence', prop + '.json'), 'w') as f:
+    # evidence/ describes runs against /repo itself; a run against another tree (GLOM_REPO, used when
+    # a seeded change is evaluated on a scratch copy) is recorded apart and never committed
+    evdir = 'evidence' if os.path.realpath(REPO) == os.path.realpath('/repo') else 'replays/evidence-other-tree'
+    os.makedirs(os.path.join(VERIF, evdir), exist_ok=True)
+    with open(os.path.join(VERIF, evdir, prop + '.json'), 'w') as f:
         json.dump(ev, f, indent=1)
     for l in lines:
         print(l)
